@@ -37,6 +37,14 @@ T_C06_NoDispatchAfterCompletion == Step => ~obs.lateServed
 \* sockets - is gone when the completion is signalled: a connection attempt made after the Server future resolved is refused
 T_C06_NotListeningAfterCompletion == Step => ~obs.lateConnected
 
+\* ServerHandles.H_AllLiveOnce on the server's own handle vector, observed (hook `srv_handles`) after every worker
+\* replacement: one handle per worker index, each still listening - the handles handle_cmd(Stop) will send through
+T_C06_HandlesAfterReplacement ==
+  (Step /\ obs.e = "WorkerReplaced") =>
+     /\ Len(obs.replHandles) = obs.workers
+     /\ \A i \in 0..(obs.workers - 1) :
+          Cardinality({k \in 1..Len(obs.replHandles) : obs.replHandles[k][1] = i /\ obs.replHandles[k][2]}) = 1
+
 TraceAccepted ==
   LET n == TLCGet("stats").diameter - 1 IN
     /\ PrintT(<<"TRACE_MATCHED", n, Len(Rec)>>)
